@@ -116,6 +116,12 @@ class Real:
         self.stale_read = int(dsm.STALE_READ)
         self.stale_create = int(dsm.STALE_CREATE)
         self.prefix = "ek%s%s_" % (_b36(os.getpid()), _b36(next(_counter)))
+        for n in os.listdir("/dev/shm"):      # leftovers of a dead process that had our pid
+            if n.startswith(self.prefix):
+                try:
+                    os.unlink("/dev/shm/" + n)
+                except OSError:
+                    pass
         self.cap = cap
         self.m = dsm.Manager(self.prefix, capacity=cap)
         self.jobs = _Jobs()
@@ -393,6 +399,8 @@ class Runner:
         if not exists and pre["free"] < size <= self.cap and out != "wait":
             self._flag("nofit-not-wait", f"add({k},{size}) with free {pre['free']} answered {out!r}")
         self._stat("add:" + out)
+        if "c" in op:
+            self._stat("requests_by_client_%d" % op["c"])
         self._emit({"op": "add", "k": k, "size": size, "deser": "d" + k, "t": self.t}, out)
         return out
 
@@ -452,6 +460,8 @@ class Runner:
         except Exception as e:
             out, val = "exception:" + _exc(e), None
         self._stat("get:" + out)
+        if "c" in op:
+            self._stat("requests_by_client_%d" % op["c"])
         if out == "granted":
             shmid, l, rdid, deser = val
             g = self.current_grant(k)
@@ -639,7 +649,7 @@ def gen_and_run(rng, cfg):
             if kind == "add":
                 r = rng.random()
                 size = rng.randint(1, max(1, cap // 2)) if r < 0.6 else rng.randint(1, cap) if r < 0.92 else cap + rng.randint(1, 3)
-                op = {"op": "add", "k": k, "size": size, "t": t}
+                op = {"op": "add", "c": rng.randrange(cfg.get("nclients", 1)), "k": k, "size": size, "t": t}
             elif kind == "get":
                 if rng.random() < 0.7 and status:
                     k = rng.choice(sorted(status))
@@ -648,7 +658,7 @@ def gen_and_run(rng, cfg):
                 if d is not None and d.ongoing_reads and rng.random() < 0.3:
                     cands.append(rng.choice(sorted(d.ongoing_reads)))
                 cands.append("r%07d" % next(rd))
-                op = {"op": "get", "k": k, "t": t, "cands": cands}
+                op = {"op": "get", "c": rng.randrange(cfg.get("nclients", 1)), "k": k, "t": t, "cands": cands}
             elif kind == "purge":
                 if rng.random() < 0.8 and status:
                     k = rng.choice(sorted(status))
